@@ -130,6 +130,26 @@ def table_findings(chk, t):
             chk.violate('table', 'C16 %s row %d (%s): %s at x=s^2=%s (value %.6g)' % (
                 nm, i, t['labels'][kind][i], w[0], w[1], w[2]), what + ': form factor must be positive and non-increasing on [0,4]',
                 replay={'harness': 'h_sf', 'line': 'sf\t%s %d %r' % (kind, i, w[1])})
+    # difference from the frozen copy (stands in for "exactly the published values")
+    with open(vlib.ROOT + '/gen/golden/FormFactGolden.v') as f:
+        g = F.parse_formfact(f.read().replace('Definition g_', 'Definition '))
+    for kind, nm in (('X', 'IT92'), ('E', 'C4322')):
+        if len(g[kind]) != len(t[kind]):
+            chk.violate('table', 'C16 %s has %d rows, frozen copy %d' % (nm, len(t[kind]), len(g[kind])), 'row count changed',
+                        found_input=False)
+        for i, (a, b) in enumerate(zip(t[kind], g[kind])):
+            for k, (x, y) in enumerate(zip(a, b)):
+                if x != y:
+                    chk.violate('table', 'C16 %s row %d (%s) coefficient %d is %s, frozen copy of the published table has %s' % (
+                        nm, i, t['labels'][kind][i], k, float(x), float(y)), 'table differs from the frozen copy',
+                        replay={'harness': 'h_sf', 'line': 'row\t%s %d' % (kind, i)})
+    for i, (x, y) in enumerate(zip(t['N'], g['N'])):
+        if x != y:
+            chk.violate('table', 'C16 Neutron92 entry %d is %s, frozen copy has %s' % (i, float(x), float(y)),
+                        'table differs from the frozen copy', replay={'harness': 'h_sf', 'line': 'row\tN %d' % i})
+    if t['ions'] != g['ions']:
+        chk.violate('table', 'C16 IT92 ion_list differs from the frozen copy', str([p for p in zip(t['ions'], g['ions']) if p[0] != p[1]][:5]),
+                    replay={'harness': 'h_sf', 'line': 'o_ionlookup\t-'})
     known = {1: Fraction(-3739, 1000), 119: Fraction(6671, 1000), 6: Fraction(6646, 1000), 7: Fraction(936, 100),
              8: Fraction(5803, 1000)}
     for el, v in known.items():
